@@ -241,3 +241,27 @@ fn c10_checksum_corruption_rejected() {
     assert!(matches!(r, Err(postcard::Error::DeserializeBadCrc)));
     kani::cover!(flen == 7, "longest frame reachable");
 }
+
+/// the same for the widest checksum: every non-zero XOR pattern on the 16 checksum bytes
+#[kani::proof]
+#[kani::unwind(20)]
+//@ tier=quick class=core cap=1800 bounds="all u8 values x every non-zero XOR pattern on the 16 checksum bytes, 128-bit width (CRC-82/DARC)"
+fn c10_checksum_corruption_rejected_u128() {
+    let v: u8 = kani::any();
+    let mut fb = [0u8; 17];
+    let flen = postcard::ser_flavors::crc::to_slice_u128(&v, &mut fb, C128.digest()).unwrap().len();
+    assert!(flen == 17);
+    let pat: u128 = kani::any();
+    kani::assume(pat != 0);
+    let pb = pat.to_le_bytes();
+    let mut i = 0;
+    while i < 16 {
+        fb[1 + i] ^= pb[i];
+        i += 1;
+    }
+    let r: postcard::Result<u8> = postcard::de_flavors::crc::from_bytes_u128(&fb, C128.digest());
+    assert!(matches!(r, Err(postcard::Error::DeserializeBadCrc)), "corruption confined to the checksum was accepted");
+    let r2 = postcard::de_flavors::crc::take_from_bytes_u128::<u8>(&fb, C128.digest());
+    assert!(r2.is_err(), "corruption confined to the checksum was accepted");
+    kani::cover!(pat >> 64 != 0 && pat as u64 == 0, "corruption only in the high checksum bytes reachable");
+}
